@@ -81,11 +81,11 @@ theorem verification_is_per_connection {App P R} (rs : Routes) (H : Handlers App
 
 /-- A connection's verification status changes only through the pair-verify endpoint, and then only by the
     message characterised in C03: a finish sealed under the current exchange key carrying a signature by the key
-    stored for the claimed name over (controller ephemeral key, name, this connection). -/
+    stored for the claimed name over (controller ephemeral key, name, this connection's accessory key of this exchange). -/
 theorem verified_only_by_valid_finish {App P R} (rs : Routes) (H : Handlers App P R) (w : World App) (c : Nat)
     (r : Req P) (hch : ((serve rs H w c r).1.conns c).pv.installed ≠ (w.conns c).pv.installed) :
     ∃ name pk, (w.conns c).pv.step = .startResp ∧ w.store name = .key pk ∧
-      r = .verify (.v3 (.sealed (w.conns c).pv.K true true (.tlv name (.valid pk (w.conns c).pv.other name c)))) := by
+      r = .verify (.v3 (.sealed (w.conns c).pv.K true true (.tlv name (.valid pk (w.conns c).pv.other name c (w.conns c).pv.epoch)))) := by
   cases r with
   | setup m =>
     exfalso; apply hch
